@@ -21,7 +21,9 @@ from .inline import _walk_places, _walk_consts, _retarget, _PROM
 
 FN_TRAITS = ("std::ops::FnOnce::call_once", "std::ops::FnMut::call_mut", "std::ops::Fn::call")
 COMBINATORS = {"std::option::Option::map": "map", "std::option::Option::and_then": "and_then", "std::option::Option::map_or": "map_or",
-               "std::iter::Iterator::for_each": "for_each", "bool::then": "then"}
+               "std::iter::Iterator::for_each": "for_each", "bool::then": "then",
+               "std::result::Result::and_then": "r_and_then", "std::result::Result::map": "r_map"}
+RESULT_VARIANTS = [[0, "Ok"], [1, "Err"]]
 OPTION_VARIANTS = [[0, "None"], [1, "Some"]]
 
 
@@ -63,6 +65,30 @@ def _resolve(body, defs, op, depth=0):
         outer = _resolve(body, defs, {"k": "copy", "place": {"local": L, "proj": [], "ty": ""}}, depth + 1)
         if outer and pr[0]["i"] < len(outer[2]):
             return _resolve(body, defs, outer[2][pr[0]["i"]], depth + 1)
+    return None
+
+
+def _resolve_fnitem(body, defs, op, depth=0):
+    """the function item an operand denotes (the `fn` descriptor of a `const` operand of FnDef type), through single
+    assignments and references"""
+    if depth > 8:
+        return None
+    if op.get("k") == "const":
+        return op.get("fn")
+    if op.get("k") not in ("copy", "move"):
+        return None
+    pl = op["place"]
+    L = pl["local"]
+    if [e for e in pl["proj"] if e["k"] != "deref"]:
+        return None
+    ds = defs.get(L, [])
+    if len(ds) != 1 or ds[0][0] != "stmt" or body["locals"][L].get("arg"):
+        return None
+    rv = ds[0][3]["rv"]
+    if rv["k"] == "use":
+        return _resolve_fnitem(body, defs, rv["op"], depth + 1)
+    if rv["k"] == "ref" and not [e for e in rv["place"]["proj"] if e["k"] != "deref"]:
+        return _resolve_fnitem(body, defs, {"k": "copy", "place": {"local": rv["place"]["local"], "proj": [], "ty": ""}}, depth + 1)
     return None
 
 
@@ -289,7 +315,20 @@ def expand_closures(j, known_closures, known_fns=()):
                 defs = _defs(body)
                 if key in FN_TRAITS and len(t["args"]) == 2:
                     r = _resolve(body, defs, t["args"][0])
-                    if r is None or r[0] not in fns or not fns[r[0]].get("body"):
+                    if r is None:
+                        # a function ITEM handed over as a value (`helper(self, Self::pop_min)` after the helper was
+                        # inlined): `pop(&mut self)` is the direct call `Self::pop_min(&mut self)`
+                        fd = _resolve_fnitem(body, defs, t["args"][0])
+                        if fd is not None and fd.get("key") in fns:
+                            params = _tuple_params(body, defs, t["args"][1], (fns[fd["key"]].get("body") or {}).get("arg_count", -1))
+                            if params is not None and (fns[fd["key"]].get("body") or {}).get("arg_count", -1) >= 0:
+                                t["func"] = copy.deepcopy(fd)
+                                t["args"] = params
+                                t["inlined_call"] = key
+                                report.append("call of the function value %s in %s made direct" % (fd["key"], F["key"]))
+                                changed = True
+                        continue
+                    if r[0] not in fns or not fns[r[0]].get("body"):
                         continue
                     K = fns[r[0]]
                     params = _tuple_params(body, defs, t["args"][1], K["body"]["arg_count"] - 1)
@@ -396,6 +435,40 @@ def expand_closures(j, known_closures, known_fns=()):
                         continue
                     b["stmts"].append({"k": "assign", "place": copy.deepcopy(dest), "rv": {"k": "aggregate", "agg": "tuple", "ops": []}, "span": span})
                     b["term"] = {"k": "goto", "target": head, "span": span, "inlined_call": key}
+                elif kind in ("r_and_then", "r_map"):
+                    # match recv { Ok(x) => f(x) / Ok(f(x)), Err(e) => Err(e) }
+                    disc = _new_local(F, "isize")
+                    x = _new_local(F, item_ty["s"], item_ty)
+                    RP = "std::result::Result"
+                    err_b = _new_block(F, [{"k": "assign", "place": copy.deepcopy(dest), "rv": {
+                        "k": "aggregate", "agg": "adt", "path": RP, "variant": "Err", "fields": [0],
+                        "ops": [{"k": "move", "place": {"local": R, "proj": [{"k": "downcast", "variant": 1, "name": "Err"},
+                                                                              {"k": "field", "i": 0, "name": "0", "of": RP, "ty": ""}], "ty": ""}}]}, "span": span}],
+                                       {"k": "goto", "target": target, "span": span})
+                    ok_b = _new_block(F, [], {"k": "goto", "target": target, "span": span})
+                    fin = None
+                    if kind == "r_and_then":
+                        res_dest = dest
+                    else:
+                        tmp = _new_local(F, K["body"]["locals"][0]["ty"]["s"], K["body"]["locals"][0]["ty"])
+                        res_dest = {"local": tmp, "proj": [], "ty": ""}
+                        fin = _new_block(F, [{"k": "assign", "place": copy.deepcopy(dest), "rv": {"k": "aggregate", "agg": "adt", "path": RP, "variant": "Ok",
+                                                                                               "fields": [0], "ops": [{"k": "move", "place": {"local": tmp, "proj": [], "ty": ""}}]},
+                                              "span": span}], {"k": "goto", "target": target, "span": span})
+                    body["blocks"][ok_b]["stmts"] = [{"k": "assign", "place": {"local": x, "proj": [], "ty": item_ty["s"]},
+                                                      "rv": {"k": "use", "op": {"k": "move", "place": {"local": R, "proj": [
+                                                          {"k": "downcast", "variant": 0, "name": "Ok"},
+                                                          {"k": "field", "i": 0, "name": "0", "of": RP, "ty": item_ty["s"]}], "ty": item_ty["s"]}}},
+                                                      "span": span}]
+                    ok = _splice_closure(F, ok_b, K, r[2], [{"k": "move", "place": {"local": x, "proj": [], "ty": item_ty["s"]}}],
+                                         res_dest, fin if fin is not None else target, span)
+                    if not ok:
+                        continue
+                    b["stmts"].append({"k": "assign", "place": {"local": disc, "proj": [], "ty": "isize"},
+                                       "rv": {"k": "discriminant", "place": {"local": R, "proj": [], "ty": ""}, "path": RP, "variants": RESULT_VARIANTS},
+                                       "span": span})
+                    b["term"] = {"k": "switch", "discr": {"k": "move", "place": {"local": disc, "proj": [], "ty": "isize"}},
+                                 "targets": [[0, ok_b]], "otherwise": err_b, "span": span, "inlined_call": key}
                 else:
                     # match recv { None => default / None, Some(x) => .. f(x) .. }
                     disc = _new_local(F, "isize")
